@@ -16,7 +16,7 @@ O_ALL = ['assign_nullopt', 'reset', 'emplace', 'assign_src', 'set', 'value_or_mo
          'default', 'nullopt', 'inplace', 'from_src', 'from_os', 'from_os_move', 'from_ta_move', 'move_ctor', 'move_assign', 'swap', 'swap_free']
 O_COPY = ['value_or', 'copy_assign_self', 'assign_own_value', 'assign_ta', 'from_ta', 'copy_ctor', 'copy_assign']
 V_ALL = ['emplace', 'emplace_type', 'conv_assign_move', 'set', 'swap_self', 'move_assign_self', 'default', 'inplace', 'inplace_type', 'conv_ctor_move', 'move_ctor', 'move_assign', 'swap', 'rel']
-V_COPY = ['conv_assign', 'copy_assign_self', 'assign_own_alt', 'conv_ctor', 'copy_ctor', 'copy_assign']
+V_COPY = ['conv_assign', 'copy_assign_self', 'assign_own_alt', 'assign_own_int', 'conv_ctor', 'copy_ctor', 'copy_assign']
 X_ALL = ['emplace', 'set', 'value_or_move', 'swap_self', 'move_assign_self', 'default', 'inplace', 'unexpect', 'move_ctor', 'move_assign', 'swap']
 X_COPY = ['value_or', 'copy_assign_self', 'copy_ctor', 'copy_assign']
 UW = {'ll_memset.0': 130, 'll_memcpy.0': 130, 'll_memmove.0': 130, 'll_memmove.1': 130}
@@ -30,7 +30,10 @@ def queries(tier, prop='C03'):
 
     def add(e, fl, budget=120, **cfg):
         c = {'FLAV': fl}; c.update(cfg)
-        out.append(dict(entry='q_' + e, cfg=c, unwind=24, unwindset=UW, budget=budget, ub=ub, nofunc=ub))
+        q = dict(entry='q_' + e, cfg=c, unwind=24, unwindset=UW, budget=budget, ub=ub, nofunc=ub)
+        if e == 'v_assign_own_alt': q['kf_only'] = 'C03_variant_assign_own_alternative'   # the whole query lies inside the known-finding region
+        if e.endswith('_hist'): q['object_bits'] = 14
+        out.append(q)
     flavs = (0, 1, 2) if not ub else (0,)
     for fl in flavs:
         for (pre, al, cp) in (('o_', O_ALL, O_COPY), ('v_', V_ALL, V_COPY), ('x_', X_ALL, X_COPY)):
@@ -42,4 +45,5 @@ def queries(tier, prop='C03'):
         else:
             for fl in (0, 1, 2):
                 add('v_hist', fl, budget=2400, KSTEPS=3); add('o_hist', fl, budget=2400, KSTEPS=3)
+    for q_ in out: q_['lazy_trace'] = True   # verdict first, counterexample trace only when an obligation fails (engine/runner.py)
     return out
